@@ -17,7 +17,11 @@
 (*    the object's own headers dict, so children made later inherit it;    *)
 (*  - __exit__ calls get_httpx_client() (creating a client if there was    *)
 (*    none) and closes it; a closed httpx client cannot send or reopen;    *)
-(*  - set_httpx_client replaces the live client by the user's.             *)
+(*  - set_httpx_client replaces the live client by the user's;             *)
+(*  - `token` is a public, mutable attribute: the credential header is     *)
+(*    computed from its CURRENT value whenever an httpx client is built    *)
+(*    (not when the object is constructed); a client that is already       *)
+(*    built keeps the credential it was built with.                        *)
 (* DECLARATIVE: laws CL1-CL4 below.                                        *)
 (***************************************************************************)
 EXTENDS Naturals, Sequences, FiniteSets, TLC
@@ -29,25 +33,27 @@ Absent == "-"
 Modes  == {"s", "a"}
 Times  == {"t0", "t1", "t2"}                       \* t0: the constructor's default (None); "tu": the default of a user-supplied httpx client
 NoHdrs == [n \in Names |-> Absent]
-NoLive == [exists |-> FALSE, hdrs |-> NoHdrs, cks |-> NoHdrs, auth |-> FALSE, time |-> "t0", st |-> "new", user |-> FALSE]
+Tokens == {"tok", "tok2"}                            \* "tok": the constructor argument
+\* auth: the credential on the wire / in the settings ("-" = none); stale: the token was assigned after this httpx client was built
+NoLive == [exists |-> FALSE, hdrs |-> NoHdrs, cks |-> NoHdrs, auth |-> "-", time |-> "t0", st |-> "new", user |-> FALSE, stale |-> FALSE]
 
 \* a client object: settings + one live httpx client per mode
-NewObj(kind) == [kind |-> kind, hdrs |-> NoHdrs, cks |-> NoHdrs, auth |-> FALSE, time |-> "t0", live |-> [m \in Modes |-> NoLive]]
+NewObj(kind) == [kind |-> kind, token |-> "tok", hdrs |-> NoHdrs, cks |-> NoHdrs, auth |-> "-", time |-> "t0", live |-> [m \in Modes |-> NoLive]]
 
 VARIABLES objs,      \* sequence of client objects
           hist,      \* the history (observation only)
           sent       \* the outcome of the last Call: [res, hdrs, cks, auth, time, arg]; arg: the cookie ARGUMENT of that call ("-" = not passed)
 vars == <<objs, hist, sent>>
-Init == objs = <<>> /\ hist = <<>> /\ sent = [res |-> "none", hdrs |-> NoHdrs, cks |-> NoHdrs, auth |-> FALSE, time |-> "t0", arg |-> "-"]
+Init == objs = <<>> /\ hist = <<>> /\ sent = [res |-> "none", hdrs |-> NoHdrs, cks |-> NoHdrs, auth |-> "-", time |-> "t0", arg |-> "-"]
 
 Rec(ev) == hist' = Append(hist, ev)
-Quiet == sent' = [res |-> "none", hdrs |-> NoHdrs, cks |-> NoHdrs, auth |-> FALSE, time |-> "t0", arg |-> "-"]
+Quiet == sent' = [res |-> "none", hdrs |-> NoHdrs, cks |-> NoHdrs, auth |-> "-", time |-> "t0", arg |-> "-"]
 Create(kind) == /\ Len(objs) < MaxObjs /\ objs' = Append(objs, NewObj(kind)) /\ Rec([op |-> "create", kind |-> kind]) /\ Quiet
 
 \* ---- get_httpx_client: lazily build the live client from the settings (writing the credential into the settings first)
 Built(o, m) == IF o.live[m].exists THEN o
-               ELSE LET o1 == IF o.kind = "auth" THEN [o EXCEPT !.auth = TRUE] ELSE o IN
-                    [o1 EXCEPT !.live[m] = [exists |-> TRUE, hdrs |-> o1.hdrs, cks |-> o1.cks, auth |-> o1.auth, time |-> o1.time, st |-> "new", user |-> FALSE]]
+               ELSE LET o1 == IF o.kind = "auth" THEN [o EXCEPT !.auth = o.token] ELSE o IN
+                    [o1 EXCEPT !.live[m] = [exists |-> TRUE, hdrs |-> o1.hdrs, cks |-> o1.cks, auth |-> o1.auth, time |-> o1.time, st |-> "new", user |-> FALSE, stale |-> FALSE]]
 Get(i, m) == /\ objs' = [objs EXCEPT ![i] = Built(objs[i], m)] /\ Rec([op |-> "get", i |-> i, m |-> m]) /\ Quiet
 
 \* ---- with_headers / with_cookies / with_timeout
@@ -87,12 +93,17 @@ Exit(i, m) == /\ objs' = [objs EXCEPT ![i] = [Built(objs[i], m) EXCEPT !.live[m]
 SetUser(i, m) == /\ objs' = [objs EXCEPT ![i].live[m] = [NoLive EXCEPT !.exists = TRUE, !.user = TRUE, !.time = "tu"]]
                  /\ Rec([op |-> "set_user", i |-> i, m |-> m]) /\ Quiet
 
+\* ---- client.token = k: an attribute assignment on an AuthenticatedClient (nothing else happens at that moment)
+SetToken(i, k) == /\ objs[i].kind = "auth" /\ objs[i].token # k
+                  /\ objs' = [objs EXCEPT ![i] = [UpdLive(objs[i], LAMBDA l : [l EXCEPT !.stale = TRUE]) EXCEPT !.token = k]]
+                  /\ Rec([op |-> "set_token", i |-> i, k |-> k]) /\ Quiet
+
 \* ---- a request through an endpoint function: client.get_httpx_client().request(**kwargs)
 \* `a` is the value passed for the operation's optional cookie parameter ("-" = omitted): it travels with THIS request only
 Call(i, m, a) ==
   /\ LET o == Built(objs[i], m) l == o.live[m] IN
        /\ objs' = [objs EXCEPT ![i] = IF l.st = "closed" THEN o ELSE [o EXCEPT !.live[m].st = "open"]]     \* httpx: the first request opens the client
-       /\ sent' = IF l.st = "closed" THEN [res |-> "raised", hdrs |-> NoHdrs, cks |-> NoHdrs, auth |-> FALSE, time |-> "t0", arg |-> "-"]
+       /\ sent' = IF l.st = "closed" THEN [res |-> "raised", hdrs |-> NoHdrs, cks |-> NoHdrs, auth |-> "-", time |-> "t0", arg |-> "-"]
                   ELSE [res |-> "sent", hdrs |-> l.hdrs, cks |-> l.cks, auth |-> l.auth, time |-> l.time, arg |-> a]
   /\ Rec([op |-> "call", i |-> i, m |-> m, a |-> a])
 
@@ -101,6 +112,7 @@ Next == /\ Len(hist) < MaxOps
            \/ \E i \in 1..Len(objs) :
                 \/ \E n \in Names, v \in Vals : WithHeaders(i, n, v) \/ WithCookies(i, n, v)
                 \/ \E t \in Times : WithTimeout(i, t)
+                \/ \E k \in Tokens : SetToken(i, k)
                 \/ \E m \in Modes : Get(i, m) \/ Enter(i, m) \/ Exit(i, m) \/ SetUser(i, m) \/ (\E a \in {"-", "a1"} : Call(i, m, a))
 Spec == Init /\ [][Next]_vars
 
@@ -117,9 +129,11 @@ CL2 == (LastCall /\ sent.res = "sent" /\ ~Live.user) =>
           /\ \A n \in Names : Obj.cks[n] # Absent => sent.cks[n] = Obj.cks[n]
           /\ (Obj.time # "t0" => sent.time = Obj.time)
 \* CL3: an AuthenticatedClient that builds its own httpx client always sends the credential
-CL3 == (LastCall /\ sent.res = "sent" /\ ~Live.user) => (sent.auth <=> Obj.kind = "auth")
+\*      - and it is the CURRENT token unless the token was assigned after that httpx client had been built
+CL3 == (LastCall /\ sent.res = "sent" /\ ~Live.user) => /\ (sent.auth # "-" <=> Obj.kind = "auth")
+                                                         /\ ((Obj.kind = "auth" /\ ~Live.stale) => sent.auth = Obj.token)
 \* CL5: an argument of a call travels with that call only (nothing of an earlier call's arguments is on a later request)
 CL5 == (LastCall /\ sent.res = "sent") => sent.arg = hist[Len(hist)].a
 \* CL4: a plain Client never sends a credential
-CL4 == (LastCall /\ sent.res = "sent" /\ Obj.kind = "plain") => ~sent.auth
+CL4 == (LastCall /\ sent.res = "sent" /\ Obj.kind = "plain") => sent.auth = "-"
 =============================================================================
